@@ -82,7 +82,9 @@ func VH_c04_update() {
 	var fp, fd *FilterType
 	var sel, elem any
 	selSpec := verifrt.Spec{Depth: 2, MaxUint: 999}
-	withIDs := append(append([]string{}, l.Keys...), nonKey...) // written items never carry the flag themselves
+	// a peer may put the changeability flag itself into the written item
+	nonKeyW := append(append([]string{}, nonKey...), l.WriteCheck)
+	withIDs := append(append([]string{}, l.Keys...), nonKeyW...)
 	switch shape {
 	case "partial-ids":
 		fp = vhPartial()
@@ -91,14 +93,14 @@ func VH_c04_update() {
 		verifrt.Assume(l.hasAllKeys(l.At(upd, 0)))
 	case "partial-noid":
 		fp = vhPartial()
-		l.fillList("upd", upd, 1, nonKey)
+		l.fillList("upd", upd, 1, nonKeyW)
 		verifrt.Assume(l.Len(upd) == 1)
 	case "partial-selector":
 		fp = vhPartial()
 		sel = l.NewSel()
 		verifrt.Fill("sel", sel, selSpec)
 		l.SetSel(fp, sel)
-		l.fillList("upd", upd, 1, nonKey)
+		l.fillList("upd", upd, 1, nonKeyW)
 		verifrt.Assume(l.Len(upd) == 1)
 	case "delete-selector":
 		fd = vhDelete()
@@ -163,6 +165,9 @@ func VH_c04_update() {
 		sub = "addresses-unchangeable"
 	case nUnchg > 0:
 		sub = "unchangeable-unaddressed"
+	}
+	if l.Len(upd) == 1 && verifrt.Concrete(!vhNil(l.At(upd, 0), l.WriteCheck)) {
+		sub += "/written-item-carries-the-flag"
 	}
 	verifrt.Scenario(fmt.Sprintf("%s/%s/%s", l.Name, shape, sub))
 
